@@ -130,6 +130,11 @@ fn search(r: &mut Rep, a: &Args) {
     q.push_back((0, 0));
     let mut n = 0usize;
     while let Some((s, d)) = q.pop_front() {
+        // caps inside the engine: a broken entry type can make the reachable set explode
+        if seen.len() > 20_000 || r.total_viol > 2_000 {
+            r.caps.push(format!("search stopped at {} states / {} violations (cap)", seen.len(), r.total_viol));
+            break;
+        }
         r.max_depth = r.max_depth.max(d as u64);
         n += 1;
         let mine = n % a.nshards == a.shard;
@@ -151,7 +156,7 @@ fn search(r: &mut Rep, a: &Args) {
     if a.shard == 0 {
         r.states = seen.len() as u64;
     }
-    r.exhaustive = true;
+    r.exhaustive = r.caps.is_empty();
 }
 
 fn table_checks(r: &mut Rep) {
